@@ -68,13 +68,26 @@ example : (assignHeadingPaths (fun _ => 1)
      ⟨.paragraph, .text ['p'], ⟨1, 0, none, [], none, false, false, false⟩⟩]).map (·.md.headingPath)
     = [[['H']], [['H']]] := by decide
 
-/- FULL (false of the current code, see `C15_witness_page_reset`):
-   the elements returned by `PdfDocument::partition()` carry the heading path of the DOCUMENT prefix:
-     partitionHeadings levelOf els = assignHeadingPaths levelOf els
-   The code runs the pass once per page (`assignPerPage`). -/
+/-- **Heading paths of `partition()` — the document-level statement, in full** (since the repair
+of C15-F1).  `do_partition_pages` runs the heading pass per page and then once over all pages;
+the result is the document-level assignment, whatever the per-page passes (and their per-page
+size rankings) produced — provided the level of a title does not depend on the fields the pass
+itself writes (it is computed from `font_size`).  With `C15_assign_heading_paths_spec`: every
+element of `partition()` carries the titles of the DOCUMENT prefix that are still open. -/
+theorem C15_partition_headings_document (levelOfPage levelOfDoc : Elem → Nat) (els : List Elem)
+    (hl : ∀ e, levelOfDoc (erasePath e) = levelOfDoc e) :
+    partitionHeadings levelOfPage levelOfDoc els = assignHeadingPaths levelOfDoc els ∧
+    partitionHeadings levelOfPage levelOfDoc els = specAssign levelOfDoc [] els := by
+  have h : partitionHeadings levelOfPage levelOfDoc els = assignHeadingPaths levelOfDoc els := by
+    unfold partitionHeadings assignHeadingPaths
+    rw [← assignFrom_erase levelOfDoc hl [] (assignPerPage levelOfPage els),
+      assignPerPage_map_erase, assignFrom_erase levelOfDoc hl]
+  exact ⟨h, h.trans (C15_assign_heading_paths_spec levelOfDoc els)⟩
 
-/-- **Heading paths, partial.**  What `partition()` computes is the document-level assignment when
-the document's elements lie on a single page. -/
+example : ∀ e, (fun (x : Elem) => if x.md.fontSize then 1 else 2) (erasePath e) =
+    (fun (x : Elem) => if x.md.fontSize then 1 else 2) e := fun _ => rfl
+
+/-- The per-page pass alone equals the document-level pass for single-page element lists. -/
 theorem C15_per_page_is_document_partial (levelOf : Elem → Nat) (els : List Elem)
     (h : splitPages els = [els]) :
     assignPerPage levelOf els = assignHeadingPaths levelOf els := by
@@ -85,15 +98,24 @@ example : splitPages [(⟨.title, .text ['H'], ⟨0, 0, none, [], none, true, tr
     [[⟨.title, .text ['H'], ⟨0, 0, none, [], none, true, true, false⟩⟩,
       ⟨.paragraph, .text ['p'], ⟨1, 0, none, [], none, false, false, false⟩⟩]] := by decide
 
-/-- Witness: a section that continues after a page break loses its heading — the paragraph on
-page 1 gets an empty breadcrumb although title `H` (page 0) governs it. -/
+/-- REGRESSION (C15-F1, repaired): with the per-page pass alone a section that continues after a
+page break lost its heading — the paragraph on page 1 got an empty breadcrumb although title `H`
+(page 0) governs it; `partitionHeadings` gives it `[H]`. -/
 theorem C15_witness_page_reset :
     let els : List Elem :=
       [⟨.title, .text ['H'], ⟨0, 0, none, [], none, true, true, false⟩⟩,
        ⟨.paragraph, .text ['p'], ⟨1, 0, none, [], none, false, false, false⟩⟩,
        ⟨.paragraph, .text ['q'], ⟨2, 1, none, [], none, false, false, false⟩⟩]
     (assignPerPage (fun _ => 1) els).map (·.md.headingPath) = [[['H']], [['H']], []] ∧
-    (assignHeadingPaths (fun _ => 1) els).map (·.md.headingPath) = [[['H']], [['H']], [['H']]] := by
+    (assignHeadingPaths (fun _ => 1) els).map (·.md.headingPath) = [[['H']], [['H']], [['H']]] ∧
+    (partitionHeadings (fun _ => 1) (fun _ => 1) els).map (·.md.headingPath) = [[['H']], [['H']], [['H']]] := by
+  decide
+
+/-- REGRESSION (seeded): `stack.truncate(level - 1)` instead of `retain(lvl < level)` keeps a
+sibling as a parent when a level is skipped: H1, H3 "X", H3 "Y" must give "Y" the path [H1, Y]. -/
+theorem C15_witness_skipped_level :
+    stackOf [(1, ['A']), (3, ['X']), (3, ['Y'])] = [(1, ['A']), (3, ['Y'])] ∧
+    ((stackOf [(1, ['A']), (3, ['X'])]).take (3 - 1) ++ [(3, ['Y'])]) = [(1, ['A']), (3, ['X']), (3, ['Y'])] := by
   decide
 
 /-! ## page provenance -/
@@ -122,6 +144,54 @@ theorem C15_collect_pages (es : List Elem) :
 example : collectPages [⟨.paragraph, .text [], ⟨0, 2, none, [], none, false, false, false⟩⟩,
     ⟨.paragraph, .text [], ⟨1, 0, none, [], none, false, false, false⟩⟩,
     ⟨.paragraph, .text [], ⟨2, 2, none, [], none, false, false, false⟩⟩] = [0, 2] := by decide
+
+/-- **Page provenance of the whole pipeline.**  The pages reported by the chunks, taken together,
+are exactly the pages of the partition elements: no page is invented, none is lost — also when an
+oversized paragraph is split into fragments (a fragment keeps its source's page). -/
+theorem C15_pipeline_pages (cfg : Config) (cnt : Counter) (els : List Elem) (p : Nat) :
+    (∃ c ∈ chunk cfg cnt els, p ∈ collectPages c.elements) ↔ (∃ e ∈ els, e.md.page = p) := by
+  have h := C14_seq_provenance cfg cnt els
+  constructor
+  · rintro ⟨c, hc, hp⟩
+    obtain ⟨x, hx, rfl⟩ := ((C15_collect_pages c.elements).2 p).1 hp
+    obtain ⟨e, he, hs⟩ := h.1 c hc x hx
+    exact ⟨e, he, hs.2.1.symm⟩
+  · rintro ⟨e, he, rfl⟩
+    obtain ⟨c, hc, x, hx, hs⟩ := h.2 e he
+    exact ⟨c, hc, ((C15_collect_pages c.elements).2 _).2 ⟨x, hx, hs.2.1⟩⟩
+
+/-- **Regions.**  The pages of a chunk's `page_regions` (one union box per page, `page_anchor`) are
+its `page_numbers`, and `page_span` is (first, last) of them. -/
+theorem C15_region_pages (es : List Elem) : regionPages es = collectPages es := by
+  cases es with
+  | nil => rfl
+  | cons f r =>
+    simp only [collectPages]
+    split
+    · rename_i hall
+      have hr : ∀ x ∈ r.map (·.md.page), x ∈ [f.md.page] := by
+        intro x hx
+        obtain ⟨e, he, rfl⟩ := List.mem_map.1 hx
+        have := List.all_eq_true.1 hall e (by simp [he])
+        simpa using this
+      simp [regionPages, dedupFirst, dedupFirst_all_seen [f.md.page] _ hr, sortAsc, insertAsc]
+    · rfl
+
+example : regionPages [⟨.paragraph, .text [], ⟨0, 2, none, [], none, false, false, false⟩⟩,
+    ⟨.paragraph, .text [], ⟨1, 0, none, [], none, false, false, false⟩⟩] = [0, 2] := by decide
+
+/-- **Content-type flags.**  `has_table` / `has_list` / `has_code` say that the chunk holds an
+element of that type; `heading_only` that it is non-empty and holds titles only. -/
+theorem C15_content_flags (es : List Elem) :
+    contentTypeFlags es =
+      { hasTable := es.any (·.kind == .table), hasList := es.any (·.kind == .listItem),
+        hasCode := es.any (·.kind == .codeBlock),
+        headingOnly := !es.isEmpty && es.all (·.kind == .title) } := by
+  unfold contentTypeFlags
+  rw [flags_fold]; simp
+
+example : (contentTypeFlags [⟨.title, .text ['H'], ⟨0, 0, none, [], none, true, true, false⟩⟩]).headingOnly = true := by
+  decide
 
 /-! ## the chunks of the pipeline -/
 
